@@ -412,6 +412,24 @@ def rooted_locals(fn):
     return out
 
 
+def registration_positions(fn, pos):
+    """{local: [CFG positions of (node).var = &local]}"""
+    from cfg import enclosing_elem
+    out = {}
+    for i, nd in enumerate(fn.nodes):
+        if nd["k"] == "bin" and nd["o"] == "=":
+            l = fn.strip(nd["c"][0])
+            if fn.nodes[l]["k"] == "mem" and fn.nodes[l]["o"] == "var":
+                r = fn.strip(nd["c"][1])
+                if fn.nodes[r]["k"] == "un" and fn.nodes[r]["o"] == "&":
+                    x = fn.strip(fn.nodes[r]["c"][0])
+                    if fn.nodes[x]["k"] == "ref" and "d" in fn.nodes[x]:
+                        p = enclosing_elem(fn, i, pos)
+                        if p is not None:
+                            out.setdefault(fn.nodes[x]["d"], []).append(p)
+    return out
+
+
 def dst_producers(prog, cg, prod):
     """{function name: parameter index}: functions that return their `dst` parameter, allocating a
     fresh object into it when the caller passed NULL - a call with a literal NULL there is a producer"""
@@ -475,7 +493,7 @@ def run_r3a(prog, res, cg, must=None, prod=None):
                     vid, rhs = fn.nodes[l]["d"], fn.strip(nd["c"][1])
             elif nd["k"] == "decl" and "d" in nd and nd.get("c"):
                 vid, rhs = nd["d"], fn.strip(nd["c"][0])
-            if vid is None or vid in rooted:
+            if vid is None:
                 continue
             if fn.var_type(vid) != "struct sexp_struct *":
                 continue
@@ -485,6 +503,13 @@ def run_r3a(prog, res, cg, must=None, prod=None):
             continue
         pos = elem_positions(fn)
         dom = dominators(fn)
+        # a rooted local is safe from its registration on: definitions the registration dominates are not
+        # examined, the others are treated as unrooted until the registration executes
+        regpos = registration_positions(fn, pos) if rooted else {}
+        defs = [(d, vid, rhs) for (d, vid, rhs) in defs
+                if vid not in rooted or not any(dominates(dom, p, enclosing_elem(fn, d, pos)) for p in regpos.get(vid, ()))]
+        if not defs:
+            continue
         from cfg import block_reach
         _br = {}
 
@@ -535,7 +560,7 @@ def run_r3a(prog, res, cg, must=None, prod=None):
                 pk = enclosing_elem(fn, dn, pos)
                 if pk is not None and pk != pd:
                     kills.add(pk)
-            pubs = set(p for p in published if p)
+            pubs = set(p for p in published if p) | set(regpos.get(vid, ()))
             for c in allocs:
                 if c == rhs or c in fn.subtree(d):
                     continue
